@@ -520,7 +520,7 @@ func c12Mutate(t *rapid.T, body []byte, donor []byte) ([]byte, []string) {
 	var kinds []string
 	n := rapid.IntRange(1, 4).Draw(t, "nmut")
 	for i := 0; i < n && len(b) > 0; i++ {
-		k := rapid.SampledFrom([]string{"truncate", "flip", "byte", "pkglen", "pkglen", "selfname", "splice", "swapop", "dup", "insert", "nest"}).Draw(t, "mutk")
+		k := rapid.SampledFrom([]string{"truncate", "flip", "byte", "pkglen", "pkglen", "selfname", "splice", "swapop", "dup", "insert", "nest", "bufnest", "bufnest"}).Draw(t, "mutk")
 		pos := rapid.IntRange(0, len(b)-1).Draw(t, "pos")
 		switch k {
 		case "truncate":
@@ -569,6 +569,20 @@ func c12Mutate(t *rapid.T, body []byte, donor []byte) ([]byte, []string) {
 			b = append(b[:pos+l], append(append([]byte(nil), b[pos:pos+l]...), b[pos+l:]...)...)
 		case "insert":
 			b = append(b[:pos], append([]byte{rapid.SampledFrom(c12Alphabet).Draw(t, "ins")}, b[pos:]...)...)
+		case "bufnest":
+			// give a Buffer/Package/While/If a package-bearing term as its first operand whose own
+			// PkgLength may reach beyond the enclosing package
+			for j := pos; j+2 < len(b); j++ {
+				if b[j] == 0x11 || b[j] == 0x12 || b[j] == 0xa0 || b[j] == 0xa2 {
+					at := j + 2 + int(b[j+1]>>6)
+					if at > len(b) {
+						break
+					}
+					inner := []byte{rapid.SampledFrom([]byte{0x11, 0x11, 0x12}).Draw(t, "bnop"), byte(rapid.IntRange(1, 40).Draw(t, "bnlen")), 0x0a, byte(rapid.IntRange(0, 4).Draw(t, "bnsize"))}
+					b = append(b[:at], append(inner, b[at:]...)...)
+					break
+				}
+			}
 		case "nest":
 			// put a package-bearing term (Buffer/Package with its own, possibly too large,
 			// PkgLength) where a term starts: the inner package may reach beyond the outer one
